@@ -129,12 +129,17 @@ def config(case):
                             bad("tracker called at a time that is no simulation time", mult, tset, t=t)
                             break
                 spec = tset[i]
-                if spec[0] == "const" and spec[1] >= 1:
+                if spec[0] in ("const", "const_abs") and spec[1] >= 1:
                     D = spec[1] * dt
+                    # the schedule starts when the tracker becomes active: at t_start of the run, or at its own (absolute)
+                    # t_start if that is later
+                    base = t0 if spec[0] == "const" else max(t0, spec[2])
+                    if any(t < base - 1e-9 * dt for t in ts):
+                        bad("tracker called before its t_start", mult, tset, ts=ts, t_start=base)
                     k = 0
                     unserved = None
                     while True:
-                        s = t0 + k * D
+                        s = base + k * D
                         if s > t1 - 1e-9 * dt:
                             break
                         if adaptive:
@@ -148,7 +153,7 @@ def config(case):
                         bad("scheduled time not served exactly once", mult, tset, scheduled=unserved[0],
                             count=unserved[1], ts=ts)
                     # number of calls: one per scheduled time (+ ambiguous one at t_end, + final)
-                    amb = abs(t0 + k * D - t1) <= 1e-9 * dt
+                    amb = abs(base + k * D - t1) <= 1e-9 * dt
                     lo, hi = k, k + (1 if amb else 0) + (0 if whole else 1)
                     if amb and whole:
                         lo = k  # a scheduled time numerically at t_end may or may not be served
